@@ -3,6 +3,7 @@ import Exetera.Spec.MapValid
 import Exetera.Lemmas.MapValidStream
 import Exetera.Lemmas.MapValidIndexed4
 import Exetera.Lemmas.MapValidFlat2
+import Exetera.Lemmas.MapValidWindow
 /-!
   C04 — Mapping a column through a join map gives the mapped value or the empty value.
 
@@ -296,6 +297,25 @@ theorem extents_correct (m : List Int) (s e : Nat) (inv : Int) (hse : s < e) (he
 theorem decomposition_partition (indices : List Int) (budget : Int) (s e : Nat) (hse : s < e) (he : e < indices.length) :
     ∃ subs, chunkDecomp indices budget s e = .ok subs ∧ Tiles subs s e :=
   chunkDecomp_spec indices budget s e hse he
+
+/-- **The source window of a sub-chunk is bounded by the chunk size, for every marker** (what the splitter is for, and
+    what D9 broke for the sentinels `DataFrame.merge` passes): in every piece `(s, e)` returned by
+    `get_map_subchunks_based_on_index_lengths` any two valid entries differ by less than `chunksize`, so the slice
+    `data_field.data[first : last+1]` read for the piece has at most `chunksize` elements. -/
+theorem source_window_bounded (m : List Int) (inv : Int) (cs : Nat) (hcs : 1 ≤ cs) (hm : ValidMonotone m inv) :
+    ∃ subs, subchunks m inv cs = .ok subs ∧
+      ∀ t ∈ subs, ∀ (p q : Nat) (a b : Int), t.1 ≤ p → p < t.2 → t.1 ≤ q → q < t.2 →
+        m[p]? = some a → m[q]? = some b → a ≠ inv → b ≠ inv → b - a < cs := by
+  obtain ⟨subs, h1, _, h3⟩ := subchunks_made m inv cs hcs
+  refine ⟨subs, h1, ?_⟩
+  intro t ht p q a b hp1 hp2 hq1 hq2 hpa hqb ha hb
+  rw [h3 t ht] at hp2 hq2
+  exact nextMapSubchunk_span m t.1 inv cs hm p q a b hp1 hp2 hq1 hq2 hpa hqb ha hb
+
+/-- with the 64-bit sentinel and chunksize 4 the trailing unmatched rows start a piece of their own instead of being
+    treated as huge valid indices -/
+example : subchunks [0, 1, 9, INVALID_INDEX_64, INVALID_INDEX_64, 10] INVALID_INDEX_64 4
+    = .ok [(0, 2), (2, 3), (3, 6)] := by rfl
 
 /-! ### non-vacuity of the indexed and non-streaming theorems -/
 
